@@ -97,7 +97,7 @@ func runRulesGen(c *Check, g genCfg) int64 {
 		g.Filter = "FilterNone"
 	}
 	params := paramsModule(c.AllOpenDevs(), "LimV == "+g.Lim.TLA()+"\nPrefixV == "+g.Prefix+"\nReasonsV == "+tlaStrSet(g.Reasons))
-	cfgText := fmt.Sprintf("INIT Init\nNEXT Next\nINVARIANT Emit\nINVARIANT Inv\nCHECK_DEADLOCK FALSE\nCONSTANTS\n Alphabet <- %s\n MaxLen = %d\n Lim <- LimV\n Reasons <- ReasonsV\n Prefix <- PrefixV\n Filter <- %s\n",
+	cfgText := fmt.Sprintf("INIT Init\nNEXT Next\nINVARIANT Emit\nINVARIANT Inv\nCHECK_DEADLOCK FALSE\nCONSTANTS\n Alphabet <- %s\n MaxLen = %d\n Lim <- LimV\n Reasons <- ReasonsV\n Prefix <- PrefixV\n Filter <- %s\n OnlyComplete = FALSE\n",
 		g.Alphabet, g.MaxLen, g.Filter)
 
 	var table *genTable
